@@ -1,6 +1,7 @@
 package main
 
 import (
+	"strings"
 	"fmt"
 	"math/rand"
 
@@ -463,6 +464,44 @@ func checkC07(c *Ctx) {
 		})
 	}
 	c.runRefCases("heap", progs, inputs, shapes, nil, nil)
+	// what a collection hands out as a derived list (逆序, 所有值, 所有索引, 字符组-like getters) is a
+	// list of its own at every size - also for collections of 0 and 1 items, where "nothing to
+	// reverse" is no reason to hand out the collection's own storage: changes made through a loop
+	// variable, a parameter or an index of the derived list never show in the collection
+	{
+		hc := []handCase{}
+		for n := 0; n <= 4; n++ {
+			items, want := []string{}, []string{}
+			for k := 1; k <= n; k++ {
+				items = append(items, fmt.Sprintf("【%d，%d】", k, k+1))
+				want = append(want, fmt.Sprintf("list[num(%d),num(%d)]", k, k+1))
+			}
+			lit := "【" + strings.Join(items, "，") + "】"
+			wl := "list[" + strings.Join(want, ",") + "]"
+			pre := "如何改？\n\t输入列\n\t以项遍历列：\n\t\t以项（前增：0）\n\t以列（后增：【7】）\n\t输出 1\n令集 = " + lit + "\n"
+			hc = append(hc,
+				handCase{fmt.Sprintf("reverse/loop-variable/%d", n), pre + "以项遍历 集之逆序：\n\t以项（后增：9）\n输出 集\n", wl},
+				handCase{fmt.Sprintf("reverse/parameter/%d", n), pre + "（改：集之逆序）\n输出 集\n", wl},
+				handCase{fmt.Sprintf("reverse/then-grow-both/%d", n), pre + "以集（后增：【5，6】）\n以集（右移）\n令反 = 集之逆序\n以 集之逆序（后增：【8】）\n以集（后增：【8，8】）\n以集（右移）\n输出 集\n", wl},
+			)
+			nums, wn, keys, wk := []string{}, []string{}, []string{}, []string{}
+			for k := 1; k <= n; k++ {
+				nums = append(nums, fmt.Sprint(k*5))
+				wn = append(wn, fmt.Sprintf("num(%d)", k*5))
+				keys = append(keys, fmt.Sprintf("“k%d” = 【%d】", k, k))
+				wk = append(wk, fmt.Sprintf("%q=list[num(%d)]", fmt.Sprintf("k%d", k), k))
+			}
+			dl := "【" + strings.Join(keys, "，") + "】"
+			if n == 0 {
+				dl = "【=】"
+			}
+			hc = append(hc,
+				handCase{fmt.Sprintf("reverse/numbers-in-loop/%d", n), "令数列 = 【" + strings.Join(nums, "，") + "】\n以数遍历 数列之逆序：\n\t以数（自增：1）\n输出 数列\n", "list[" + strings.Join(wn, ",") + "]"},
+				handCase{fmt.Sprintf("values/loop-variable/%d", n), "令典 = " + dl + "\n以项遍历 典之所有值：\n\t以项（后增：9）\n输出 典\n", "dict[" + strings.Join(wk, ",") + "]"},
+			)
+		}
+		c.runHand("derived-lists", hc)
+	}
 	// values handed to a library constructor are stored like values handed to a constructor
 	// written in Zn (其头部 = 头部 keeps a copy): the object and the variable stay independent
 	c.runHand("native-constructor", []handCase{
